@@ -833,7 +833,7 @@ fn offset_to_line_col_in(text: &str, offset: usize, unit: Unit) -> Option<(u64, 
 }
 
 /// Runs the real `check` on a directory holding the model's contents (matched by base name).
-fn check_on_contents(t: &LspTrace, model: &Model, seed: u64) -> Result<(bool, Vec<DiagRec>), String> {
+fn check_on_contents(t: &LspTrace, model: &Model, seed: u64) -> Result<(bool, Vec<DiagRec>, Vec<String>), String> {
     let chk = root().join("chk");
     let _ = std::fs::remove_dir_all(&chk);
     std::fs::create_dir_all(&chk).map_err(|e| e.to_string())?;
@@ -855,7 +855,7 @@ fn check_on_contents(t: &LspTrace, model: &Model, seed: u64) -> Result<(bool, Ve
     }
     let args = vec![chk.clone()];
     // like every simulated command-line process: a forked child, entry point on a fresh thread
-    let forked: Result<Result<(bool, Vec<DiagRec>), String>, String> = crate::seam::run_forked(move || {
+    let forked: Result<Result<(bool, Vec<DiagRec>, Vec<String>), String>, String> = crate::seam::run_forked(move || {
         let hooks = SimHooks::new(root(), mix(&[seed, 78]), vec![]);
         crate::seam::capture_begin();
         let res = run_simulated_process(seed, Some(hooks.clone()), move || ironplcc::cli::check(&args, false));
@@ -867,8 +867,32 @@ fn check_on_contents(t: &LspTrace, model: &Model, seed: u64) -> Result<(bool, Ve
                 diags.push(DiagRec { code: r.code.clone(), primary: conv(&r.primary), secondary: r.secondary.iter().map(conv).collect(), with_project: *with_project });
             }
         }
+        // what `check` itself reports as the place of each diagnostic: the `file:line:col` lines
+        let (stdout, stderr) = crate::seam::capture_end();
+        let printed = crate::world::parse_printed(&stdout, &stderr);
+        let _ = printed;
+        // one entry per rendered diagnostic: the first `file:line:col` line after its `error[…]` header
+        // (further ones belong to secondary labels in other files)
+        let mut primary_locations: Vec<String> = vec![];
+        let mut open = false;
+        for line in crate::seam::strip_ansi(&stderr).lines() {
+            if line.starts_with("error[") {
+                if open {
+                    primary_locations.push(String::new());
+                }
+                open = true;
+            } else if open {
+                if let Some(pos) = line.find("┌─ ") {
+                    primary_locations.push(line[pos + "┌─ ".len()..].trim().to_string());
+                    open = false;
+                }
+            }
+        }
+        if open {
+            primary_locations.push(String::new());
+        }
         match res {
-            Ok(r) => Ok((r.is_ok(), diags)),
+            Ok(r) => Ok((r.is_ok(), diags, primary_locations)),
             Err(p) => Err(format!("check panicked: {p}")),
         }
     });
@@ -971,8 +995,28 @@ fn oracle_c11(t: &LspTrace, h: &History, stats: &mut Stats) -> Vec<Violation> {
             }
             // oracle 3: equals `check` on files with the same contents
             match check_on_contents(t, &model, mix(&[seed, 9])) {
-                Ok((_ok, diags)) => {
+                Ok((_ok, diags, printed_locations)) => {
                     stats.count("c11.check_comparisons");
+                    // The start position `check` reports for a diagnostic is the line:column it prints
+                    // (1-based, counted in characters). Byte offsets into the text `check` holds are only
+                    // a fallback (another output format): that text may legitimately differ from the
+                    // stored bytes by a normalisation applied after decoding (line ends, end-of-file mark).
+                    let printed_pos: Vec<Option<(u64, u64)>> = if printed_locations.len() == diags.len() {
+                        printed_locations
+                            .iter()
+                            .map(|l| {
+                                let mut it = l.rsplitn(3, ':');
+                                let col = it.next()?.trim().parse::<u64>().ok()?;
+                                let line = it.next()?.trim().parse::<u64>().ok()?;
+                                Some((line.checked_sub(1)?, col.checked_sub(1)?))
+                            })
+                            .collect()
+                    } else {
+                        vec![None; diags.len()]
+                    };
+                    if printed_pos.iter().any(|p| p.is_some()) {
+                        stats.count("c11.check_comparisons_by_printed_position");
+                    }
                     let base = base_name(&path);
                     let pubset_all: Vec<(String, u64, u64)> = published
                         .as_array()
@@ -998,9 +1042,15 @@ fn oracle_c11(t: &LspTrace, h: &History, stats: &mut Stats) -> Vec<Violation> {
                         // with a secondary label: the primary label's position in its own file, or the
                         // secondary label's position in this file
                         let mut secondary_codes: Vec<(String, Vec<Pos>)> = vec![];
-                        for d in &diags {
+                        for (di, d) in diags.iter().enumerate() {
                             if base_name(&d.primary.file) == base {
-                                let pos = offset_to_line_col_in(&text, d.primary.start, unit).unwrap_or((u64::MAX, u64::MAX));
+                                // (the printed column counts characters: usable for that unit, and for
+                                // every unit when the line is ASCII up to there)
+                                let by_offset = offset_to_line_col_in(&text, d.primary.start, unit);
+                                let pos = match printed_pos[di] {
+                                    Some(p) if unit == Unit::Chars || text.is_ascii() => p,
+                                    _ => by_offset.unwrap_or((u64::MAX, u64::MAX)),
+                                };
                                 if let Some(i) = pubset.iter().position(|p| p.0 == d.code && p.1 == pos.0 && p.2 == pos.1) {
                                     pubset.remove(i);
                                 } else {
@@ -1008,6 +1058,13 @@ fn oracle_c11(t: &LspTrace, h: &History, stats: &mut Stats) -> Vec<Violation> {
                                 }
                             } else if d.secondary.iter().any(|l| base_name(&l.file) == base) {
                                 let mut acceptable = vec![];
+                                // (positions of labels in other files are only known as byte offsets into
+                                // the text `check` holds; with carriage returns around those may be offsets
+                                // into a normalised text, so the position is not judged then)
+                                if by_base.values().any(|t| t.contains('\r')) {
+                                    secondary_codes.push((d.code.clone(), acceptable));
+                                    continue;
+                                }
                                 if let Some(pos) = by_base.get(base_name(&d.primary.file)).and_then(|t| offset_to_line_col_in(t, d.primary.start, unit)) {
                                     acceptable.push(pos);
                                 }
@@ -1062,7 +1119,7 @@ fn oracle_c11(t: &LspTrace, h: &History, stats: &mut Stats) -> Vec<Violation> {
                         out.push(viol(
                             "C11",
                             format!("C11/check-mismatch/{}", codes.join(",")),
-                            format!("for {base}: `check` on the same contents reports {missing:?} (code, (line, col)) that the server did not publish, and the server published {extras:?} that `check` does not report for this file; published = {}", short(published)),
+                            format!("for {base}: `check` on the same contents reports {missing:?} (code, (line, col)) that the server did not publish, and the server published {extras:?} that `check` does not report for this file; published = {}; check printed {} location line(s) for {} diagnostic(s)", short(published), printed_pos.iter().filter(|p| p.is_some()).count(), diags.len()),
                         ));
                     }
                 }
@@ -1365,6 +1422,13 @@ fn oracle_c15(t: &LspTrace, h: &History, stats: &mut Stats) -> Vec<Violation> {
                         let lower = name.to_lowercase();
                         if lower.ends_with(".st") || lower.ends_with(".iec") {
                             text = t.ws_files.iter().find(|(n, _)| n == name).map(|(_, x)| x.clone());
+                            // what the server holds is the stored file after decoding and whatever
+                            // normalisation a reader applies to files (line ends, end-of-file mark):
+                            // only texts on which those are the identity are judged
+                            if text.as_ref().is_some_and(|x| x.contains('\r') || x.contains('\u{1a}')) {
+                                stats.count("c15.never_opened_workspace_file_requests_not_judged");
+                                continue;
+                            }
                             if text.is_some() {
                                 stats.count("c15.never_opened_workspace_file_requests");
                             }
